@@ -702,6 +702,7 @@ class H:
         cur = exp  # @inject must resolve in the context current at call time = the lexical one
         x = object()
         k = object()
+        cscope = bool(spec.get("cscope")) and is_async
         sim.log(
             "inj_begin",
             lid=lid,
@@ -709,7 +710,20 @@ class H:
             fn=spec["fn"],
             deps=[[d[1], d[2], d[3]] for d in deps],
             is_async=is_async,
+            cscope=cscope,
         )
+        if cscope:
+            # the call is made under an already cancelled scope (an injected clean-up
+            # function called from a `finally:`): looking up what is already there does not
+            # suspend, so the function body is reached like that of the undecorated function
+            with anyio.CancelScope() as sc:
+                sc.cancel()
+                await self._do_inject_call(spec, lid, cur, fn, is_async, shape, x, k)
+            return
+        await self._do_inject_call(spec, lid, cur, fn, is_async, shape, x, k)
+
+    async def _do_inject_call(self, spec: dict, lid: int, cur: str, fn: Any, is_async: bool, shape: str, x: Any, k: Any) -> None:
+        sim = self.sim
         rtypes.CALL.set(lid)
         out = "ok"
         ret: Any = None
@@ -1001,6 +1015,11 @@ def oracle(sim: Sim, plan: dict) -> list[dict]:
             task_lookup.setdefault(task, []).append(d["lid"])
         elif kind == "inj_begin":
             lookups[d["lid"]] = {"b": d, "inj": True, "step": step, "task": task, "runs": 0, "ok_runs": 0, "idx": 0, "mut0": muts.get(d["ctx"], 0)}
+            m0 = M.get(d["ctx"])
+            # (is everything the call needs already there when it begins?)
+            lookups[d["lid"]]["all_static0"] = m0 is not None and all(
+                (t, n) in m0.static or (optional and (t, n) not in m0.factories) for t, n, optional in d["deps"]
+            )
             task_lookup.setdefault(task, []).append(d["lid"])
         elif kind == "fac_run":
             st = task_lookup.get(task) or []
@@ -1115,6 +1134,9 @@ def oracle(sim: Sim, plan: dict) -> list[dict]:
             if st and st[-1] == d["lid"]:
                 st.pop()
             b = L["b"]
+            if d["out"] == "cancelled" and b.get("cscope") and b["ctx"] in M and not L["runs"]:
+                if L.get("all_static0"):
+                    v("C19.equiv", "cancelled_before_body", f"@inject {b['fn']} in {b['ctx']} called under a cancelled scope: every dependency is already there (no lookup suspends), yet the call was cancelled before the function body ran - the undecorated function called with the looked-up values runs its body")
             if d["out"] == "cancelled" or b["ctx"] is None:
                 continue
             m = M[b["ctx"]]
@@ -1401,7 +1423,10 @@ class G:
         if op == "inj":
             if self.prop == "C19" and rng.random() < 0.08:
                 return ["inj_late", {"async": rng.random() < 0.5}]
-            return ["inj", {"fn": rng.choice(sorted(CATALOGUE)), "posx": rng.random() < 0.5}]
+            ij = {"fn": rng.choice(sorted(CATALOGUE)), "posx": rng.random() < 0.5}
+            if self.prop == "C19" and rng.random() < 0.1:
+                ij["cscope"] = True
+            return ["inj", ij]
         if op == "getres":
             spec = {"type": rng.choice(self.tn)}
             if rng.random() < 0.4:
